@@ -845,3 +845,87 @@ def rule_cg_setid(ctx, R):
 def rules_cmd_arms(ctx, names):
     import rules_cmd
     return rules_cmd.arms_reach(ctx, names)
+
+
+# ---- R-XREAD-COUNT --------------------------------------------------------------------------------
+def rule_xread_count(ctx, R):
+    """XREAD honours COUNT per stream: in every function that reads several streams in one loop
+    (`Stream::range_after` inside a loop), the limit handed to each stream is the caller's COUNT
+    itself -- a parameter, or a copy of it that is written once and never borrowed mutably (no
+    running budget) -- and the loop over the streams ends only when the list of streams is
+    exhausted or with an error: an early `break` once `enough` entries were collected leaves out
+    streams that hold newer entries."""
+    n = 0
+    RA = "storage::stream::Stream::range_after"
+    for fn, b in sorted(ctx.prog.bodies.items()):
+        if "::tests::" in fn or b.kind == "Closure":
+            continue
+        calls = [i for i, t in b.calls() if callee(t) == RA]
+        if not calls:
+            continue
+        lps = cfg.loops(b)
+        for i in calls:
+            inl = [(h, body) for h, body in lps.items() if i in body]
+            if not inl:
+                continue
+            n += 1
+            h, body = min(inl, key=lambda x: len(x[1]))
+            t = b.term(i)
+            # (1) the limit is loop-invariant
+            why = None
+            if len(t["a"]) >= 3 and not op_is_const(t["a"][2]):
+                cur = op_place(t["a"][2]); steps = 0
+                mutb = set()
+                for bb in b.bbs:
+                    for st in bb["s"]:
+                        if st["k"] == "=" and (st["r"]["k"] == "rawptr" or (st["r"]["k"] == "ref" and st["r"].get("m"))):
+                            mutb.add(st["r"]["p"]["l"])
+                while cur is not None and steps < 12:
+                    steps += 1
+                    l = cur["l"]
+                    if l in mutb:
+                        why = "is borrowed mutably (a running budget)"; break
+                    if 1 <= l <= b.nargs:
+                        break
+                    defs = prov.build_defs(b).get(l, ())
+                    if len(defs) != 1:
+                        why = "is assigned %d times" % len(defs); break
+                    kind, db, d = defs[0]
+                    if kind == "stmt" and not d["l"]["p"] and d["r"]["k"] == "use":
+                        if op_is_const(d["r"]["o"]):
+                            break
+                        if db in body and False:
+                            pass
+                        cur = op_place(d["r"]["o"])
+                        if cur["p"]:
+                            why = "is read out of another value"; break
+                        continue
+                    why = "is computed (%s)" % (d["r"]["k"] if kind == "stmt" else shared.short_callee(d["f"] or "")); break
+            R.inst(fn, "per-stream-limit", {"function": fn, "at": b.loc(i), "limit_is_the_callers_count": why is None})
+            if why:
+                R.finding(fn, "per-stream-limit:not-the-callers-count",
+                          "%s hands each stream a limit that %s instead of the caller's COUNT: COUNT becomes a budget for the whole reply and later streams are cut short or left out" % (fn.split("::")[-1], why), b.loc(i))
+            # (2) the loop ends by exhaustion or with an error only
+            oks = {x for x, bb in enumerate(b.bbs) for st in bb["s"] if st["k"] == "=" and st["l"]["l"] == 0 and not st["l"]["p"] and st["r"]["k"] == "agg" and st["r"]["a"] == "std::result::Result::Ok"}
+            nexts = [x for x in body if b.term(x)["k"] == "call" and re.search(r"Iterator>::next$", b.term(x)["f"] or "")]
+            allowed = set()
+            for x in nexts:
+                rs = shared.result_switch(b, x)
+                if rs:
+                    allowed.add(rs["sw"])
+            early = []
+            for x in sorted(body):
+                if b.bbs[x].get("cleanup"):
+                    continue
+                for y in b.succs(x):
+                    if y in body or x in allowed:
+                        continue
+                    if cfg.fwd(b, [y]) & oks:
+                        early.append((x, y))
+            R.inst(fn, "stream-loop-exits", {"function": fn, "exits_by_exhaustion_found": len(allowed), "early_success_exits": len(early)})
+            if not allowed:
+                R.broken.append("%s: the exhaustion exit of the loop over the streams is not recognised" % fn)
+            elif early:
+                R.finding(fn, "stream-loop:left-before-the-last-stream",
+                          "%s can leave the loop over the requested streams (line %d) before the list is exhausted and still answer successfully: streams listed later are missing from the reply although they hold newer entries" % (fn.split("::")[-1], b.bb_line(early[0][0])), b.loc(early[0][0]))
+    R.floor("multi_stream_read_loops", n)
